@@ -564,6 +564,35 @@ def applySkippedTransform (dt : Nat) (s : Attribute) : Bytes :=
   | .quantization bits mins range => (dequantAll range bits.toNat mins portable mins []).flatten
   | .octahedron bits => (octaAll bits.toNat portable []).flatten
 
+/-- `InverseTransformAttribute` of the quantization transform on the quantized values of one point -/
+def dequantRow (range bits : Nat) (mins : List Nat) (ks : List Int) : Bytes :=
+  (List.zipWith (fun m k => writeLE 4 (Leaf.dequant range bits m k)) mins ks).flatten
+
+/-- `InverseTransformAttribute` of the octahedron transform on the coordinates of one point -/
+def octaRowDecode (q : Nat) (st : List Int) : Bytes :=
+  match st with
+  | [a, b] =>
+    let xyz := Leaf.octaToUnit q a b
+    writeLE 4 xyz.1 ++ writeLE 4 xyz.2.1 ++ writeLE 4 xyz.2.2
+  | _ => []
+
+/-- what encode + decode do to the value row of ONE point of attribute `i`: nothing (generic and
+    integer encoders), `dequantize ∘ quantize`, or `octahedral decode ∘ encode` -/
+def transformRow (opts : EncOpts) (i : Nat) (a : Attribute) (row : Bytes) : Bytes :=
+  let o := opts.att i
+  match encoderType a o with
+  | 0 => row
+  | 1 => row
+  | 2 =>
+    (match quantizationParams a o with
+     | some (mins, range, q) =>
+       dequantRow range q mins (quantizeRow mins range q 0 (rowF32s a.numComponents row))
+     | none => [])
+  | _ =>
+    (match Octa.init o.quantBits.toNat with
+     | some t => octaRowDecode o.quantBits.toNat (octaRow t row)
+     | none => [])
+
 /-- float oracle hypothesis for one normal: the first rounded coordinate computed by
     `FloatVectorToQuantizedOctahedralCoords` has magnitude at most `center_value_` (holds for every
     input as far as tested — the driver op `seqenc` evaluates it on every case; it cannot be proved
